@@ -142,8 +142,14 @@ Shapes ==
 (* meaning written next to each is a well-formed canonical lookup list.                    *)
 MeaningCases == {[mid |-> i, font |-> MeaningFont, text |-> Render(Descs[i])] : i \in 1..Len(Descs)}
 IsMeaning(x) == "mid" \in DOMAIN x
+(* ... and the number cases (every place of a number x every boundary literal) and the error-line *)
+(* cases (every erroneous lookup x what stands before it x what stands after it) of DslLang.tla.   *)
+NumCases == {[nk |-> k, nl |-> l, font |-> MeaningFont, text |-> NumText(k, l)] : k \in NumKinds, l \in 1..Len(Lits)}
+ErrCases == {[et |-> t, ep |-> p, ex |-> x, font |-> MeaningFont, text |-> ErrText(t, p, x)] :
+               t \in ErrTemplates, p \in 1..Len(ErrPrefixes), x \in 1..Len(ErrSuffixes)}
+IsOther(x) == "nk" \in DOMAIN x \/ "et" \in DOMAIN x
 
-Init == shape \in Shapes \cup MeaningCases /\ done = FALSE
+Init == shape \in Shapes \cup MeaningCases \cup NumCases \cup ErrCases /\ done = FALSE
 Next == ~done /\ done' = TRUE /\ UNCHANGED shape
 Emit == done => PrintT(<<"CASE", ToJson(shape)>>)
 
@@ -154,7 +160,8 @@ MeaningOK(i) == LET m == Meaning(Descs[i]) IN
   /\ \A j \in 1..Len(m) : /\ m[j].typ \in 1..6 /\ m[j].flags \in 0..14 /\ Len(m[j].subs) >= 1
                            /\ \A k \in 1..Len(m[j].subs) : m[j].subs[k].k \in Kinds
 
-TypeOK == IF IsMeaning(shape) THEN MeaningOK(shape.mid)
+TypeOK == IF IsOther(shape) THEN ("et" \in DOMAIN shape => ErrExpect(shape.et, shape.ep, shape.ex) # {})
+          ELSE IF IsMeaning(shape) THEN MeaningOK(shape.mid)
           ELSE /\ shape.typ \in 1..6 /\ shape.tab \in {"GSUB", "GPOS"}
                /\ Len(shape.forms) \in (1..MaxSub) \cup {13, 20}
                /\ (shape.tab = "GSUB" /\ shape.typ <= 4) => Len(shape.forms) = 1   \* no "||" syntax for GSUB 1-4
